@@ -16,6 +16,7 @@ CLAIMS = {
  'C04': ("index key encodings vs the row-level predicate for every Int/Float/Bool/Null pair (hash-index and ordered-index lookups are complete), OrderedFloat total preorder, and the vectorised filters bit for bit against the scalar predicate (f64 kernels in the MIR executor, i64 kernels and bitmap ops under Kani); plan equivalence over engine state is not decided", "§4 C04"),
  'C06': ("stored-representation round trip only: to_dense(try_from_dense(v)) for every f32 bit pattern up to the stated dimension, representation invariants; scores/top-k/HNSW/cache not decided", "§4 C06"),
  'C07': ("snapshot header codec only: raw round trip, validate accepts exactly the v3 magic + current version, every single-bit flip in magic/version rejected; slab contents and rename atomicity not decided", "§4 C07"),
+ 'C09': ("row-lock kernel only (the clauses 'no other transaction can modify a locked row' and 'locks disappear when the owner ends or times out' at the lock table): RowLockManager try_lock refuses exactly live foreign locks and grants all-or-nothing, release/expiry remove exactly the owner's/expired entries, is_locked/lock_holder are truthful, the reverse-index invariant is preserved - from every table of the bounded shape; all-or-nothing commit/rollback over rows and indexes, TransactionManager and the engine's locking discipline are not decided", "§4 C09"),
  'C10': ("RaftWal: crash at every byte of the last record, reopen, append, restart: no acknowledged term/vote/log record is lost; recovery classification returns the last persisted term and vote; node level with the real WAL behind the real handlers: after handle_request_vote/start_election/handle_append_entries the term, vote and log rebuilt by the real from_wal equal the in-memory ones (crash is the only fault)", "§4 C10"),
  'C12': ("sequential lock-table and wait-graph bookkeeping from an arbitrary table satisfying the representation invariant: conflicts refused with nothing acquired, grants all-or-nothing under a fresh handle, release/expiry leave nothing behind, invariant preserved, forward/reverse wait edges stay mirror images, victim is a member of the cycle; thread interleavings and cycle detection are not decided", "§4 C12"),
  'C13': ("TxWal: same crash obligations as C10; TxRecoveryState::from_entries never resurrects a completed transaction, returns prepared ones with their votes, forgets preparing ones and lists orphaned lock handles exactly; coordinator commit()/abort() with the real TxWal: a crash at any byte of the call recovers either the logged decision or the still-prepared transaction, never the opposite outcome", "§4 C13"),
@@ -25,7 +26,6 @@ CLAIMS = {
 NA = {
  'C05': "graph state lives in TensorStore slabs behind GraphEngine; neither engine can execute it, and the concurrent half needs a scheduler (DESIGN §5)",
  'C08': "whole-database equality across blob store, snapshot bytes, slabs and router (DESIGN §5)",
- 'C09': "every clause is about rows/indexes after commit/rollback over engine + slab state (DESIGN §5)",
  'C11': "pure concurrency property of sharded maps; the technique has no scheduler (DESIGN §5)",
  'C14': "BFS over GraphEngine plus AES-GCM/HMAC/Argon2; not an SMT question (DESIGN §5)",
  'C16': "SHA-256/Ed25519 over serialized blocks and store snapshots; atomic commit is store state plus concurrency (DESIGN §5)",
@@ -47,7 +47,7 @@ for p in props:
 man = {
  "version": 1, "setup_cmd": "./setup.sh",
  "hooks": {"guard": "neumann_verif", "enable": "cargo feature neumann_verif on tensor_chain, relational_engine, graph_engine (read-only accessors / wrappers used by the native replay driver /verif/replay and the Kani crate /verif/kani; the MIR dump needs no hooks)",
-           "baseline_off_cmd": "cd /repo && CARGO_NET_OFFLINE=true cargo nextest run --workspace --no-fail-fast --test-threads 8 --offline", "source_commits": ["80aaab17", "4d5c4419", "8f6898ea"], "add_only": True},
+           "baseline_off_cmd": "cd /repo && CARGO_NET_OFFLINE=true cargo nextest run --workspace --no-fail-fast --test-threads 8 --offline", "source_commits": ["80aaab17", "4d5c4419", "8f6898ea", "2dbd5f78"], "add_only": True},
  "engines": [{"name": "mirsym", "path": "/verif/mirsym", "serves_properties": sorted(CLAIMS),
               "kind_free_text": "symbolic execution of the MIR rustc prints for the current tree; z3 decides every path obligation; native replay driver (/verif/replay) for translator validation and counterexample confirmation"},
              {"name": "kani", "path": "/verif/kani", "serves_properties": ["C04"], "kind_free_text": "Kani 0.68 / CBMC harnesses over the compiled relational_engine SIMD kernels (feature neumann_verif), unwinding assertions and cover checks on"}],
